@@ -285,3 +285,18 @@ func TestSelectSemantics(t *testing.T) {
 		t.Fatalf("got %v", keys(o))
 	}
 }
+
+func TestNestedRLockDeadlocksWhenAWriterSlipsIn(t *testing.T) {
+	o, _ := outcomes(t, 1<<20, func(rec func(string)) {
+		key := new(int)
+		fin := make(chan bool, 2)
+		Go("reader", func() { MuRLock(key); Yield("between"); MuRLock(key); MuRUnlock(key); MuRUnlock(key); Send(fin, true) })
+		Go("writer", func() { RWLock(key); MuUnlock(key); Send(fin, true) })
+		Recv(fin)
+		Recv(fin)
+		rec("both done")
+	})
+	if !o["both done|"+EndAllDone] || !o["|"+EndQuiescent] {
+		t.Fatalf("want both the clean run and the deadlock, got %v", keys(o))
+	}
+}
